@@ -438,6 +438,8 @@ class SelectorWorld:
         m2["params"] = dict(m["params"])
         m2["resolved"] = dict(m["resolved"])
         m2["history"] = list(m["history"])
+        m["shadow_rs_unknown"] = True  # a shallow copy shares the caller's generator instance
+        m2["shadow_rs_unknown"] = True
         m2["lane"] = None  # the copy goes its own way: not a member of the clock lanes
         m2["finals"] = {}
         self.meta[name] = m2
@@ -1019,6 +1021,18 @@ class SelectorWorld:
                     init = p.get("initialize", 0)
                     if isinstance(init, numbers.Integral) and not isinstance(init, bool) and j != (init + n_from if neg_first else init):
                         V("initial_point", f"first selection {j} is not the requested initial index {init}")
+                    if isinstance(init, str) and init == "random" and not op.get("warm"):
+                        # the random initial point is the draw plain FPS makes: one
+                        # randint(n_samples) from the generator that random_state denotes (a fresh
+                        # RandomState for an integer, the caller's instance, or the ambient
+                        # generator whose state the simulator set at the start of this fit)
+                        exp = self._expected_random_start(m, op, n_from)
+                        if exp is not None and j != exp:
+                            V("random_initial_point_not_the_generators_draw",
+                              f"initialize='random': first selection {j}, but the generator denoted by random_state="
+                              f"{m['params'].get('random_state', 0)!r} draws {exp} for {n_from} samples (fit #{m['fits']} of this object)")
+                        elif exp is not None:
+                            self.count("random_initial_point_is_the_generators_draw")
                 ok, short = ref.check_choice(j)
                 if ref.is_tie() and not first:
                     self.count("tie_steps")
@@ -1066,6 +1080,29 @@ class SelectorWorld:
         if not stopped:
             m["final"] = [int(v) % n_from for v in final_idx]
             m.setdefault("finals", {})[m["fits"]] = (m["final"], op["X"], len(m.get("opsig", [])))
+
+    def _expected_random_start(self, m, op, n_from):
+        raw = m["params"].get("random_state", 0)
+        try:
+            if raw is None:
+                seed = ((op.get("env") or {}).get("rng") or {"seed": 12345}).get("seed", 12345)
+                return int(np.random.RandomState(seed & 0x7FFFFFFF).randint(n_from))
+            if isinstance(raw, dict) and "$npint" in raw:
+                raw = int(raw["$npint"])
+            if isinstance(raw, numbers.Integral) and not isinstance(raw, bool):
+                return int(np.random.RandomState(int(raw)).randint(n_from))
+            if isinstance(raw, dict) and "$rs" in raw:
+                # the caller's generator instance advances with every cold fit; the shadow is
+                # only trusted while every fit of this object (and of no copy of it) succeeded
+                if m.get("shadow_rs_unknown") or m["ok_fits"] != m["fits"]:
+                    m["shadow_rs_unknown"] = True
+                    return None
+                if m.get("shadow_rs") is None:
+                    m["shadow_rs"] = np.random.RandomState(int(raw["$rs"]))
+                return int(m["shadow_rs"].randint(n_from))
+        except Exception:  # noqa: BLE001
+            return None
+        return None
 
     def c06_lanes(self):
         """Clock independence: lanes are identical objects/histories under different
